@@ -45,6 +45,10 @@ fn gen_cfg(seed: u64, idx: u64) -> Cfg {
         patches.push(("step_size".into(), json!(0.3)));
         patches.push(("momentum_decoherence_length".into(), json!(1.2)));
     }
+    if matches!(preset, Preset::DiagNuts | Preset::DiagMclmc) && (idx / 4) % 4 == 3 {
+        // scales from the draw variance alone (rarely used option of the diagonal presets)
+        patches.push(("adapt_options.mass_matrix_options.use_grad_based_estimate".into(), json!(false)));
+    }
     let target = *rng.choose(&["iso", "scaled", "funnel"]);
     if target == "funnel" && rng.bool(0.6) {
         patches.push(("max_energy_error".into(), json!(rng.log_range(0.5, 20.0))));
@@ -117,7 +121,23 @@ fn run_cfg(report: &mut Report, c: &Cfg, verbose: bool) {
             l.plan.insert(*k + 30, Fault::Recoverable);
         }
     }
-    let patches: Vec<(&str, J)> = c.patches.iter().map(|(p, v)| (p.as_str(), v.clone())).collect();
+    let mut patches: Vec<(&str, J)> = c.patches.iter().map(|(p, v)| (p.as_str(), v.clone())).collect();
+    // diagonal presets: the estimate itself is recomputed from the draws and gradients of the window (by value)
+    let track = matches!(c.preset, Preset::DiagNuts | Preset::DiagMclmc);
+    if track {
+        patches.push(("store_unconstrained", json!(true)));
+        patches.push(("store_gradient", json!(true)));
+    }
+    let start_grad = {
+        let mut g = vec![0.0; start.len()];
+        dens.target.eval(&start, &mut g);
+        g
+    };
+    // samples (position, gradient) in the estimator in use and in its replacement; None = a sample the harness cannot see
+    let mut fgw: Vec<Option<(Vec<f64>, Vec<f64>)>> = vec![Some((start.clone(), start_grad.clone()))];
+    let mut bgw: Vec<Option<(Vec<f64>, Vec<f64>)>> = vec![Some((start.clone(), start_grad))];
+    let mut track_ok = track;
+    let draw_only = c.patches.iter().any(|(p, v)| p.ends_with("use_grad_based_estimate") && v == &json!(false));
     let built = guard(|| {
         let (mut chain, _) = chain_on(c.preset, &patches, dens.clone(), c.seed).expect("settings");
         let r = chain.set_position(&start);
@@ -205,6 +225,7 @@ fn run_cfg(report: &mut Report, c: &Cfg, verbose: bool) {
             let required = if early { early_freq } else { cws };
             let next = if early { early_freq } else { (cws + 1).max((cws as f64 * growth).round() as u64) };
             let mut explained = false;
+            let mut took: Option<(u64, bool)> = None;
             // hypotheses: this draw counted `inc` times, followed by a switch or not
             'outer: for &inc in counts {
                 for switched in [false, true] {
@@ -214,6 +235,7 @@ fn run_cfg(report: &mut Report, c: &Cfg, verbose: bool) {
                         }
                         // with an empty background and nothing counted a switch cannot be told apart: prefer "no switch"
                         explained = true;
+                        took = Some((inc, false));
                         if inc == 1 { n_good += 1 } else { n_bad += 1 }
                         // a switch that was due must not be skipped (+-1 slack on both conditions)
                         let bg = pre.background_count + inc;
@@ -230,6 +252,7 @@ fn run_cfg(report: &mut Report, c: &Cfg, verbose: bool) {
                             continue;
                         }
                         explained = true;
+                        took = Some((inc, true));
                         if inc == 1 { n_good += 1 } else { n_bad += 1 }
                         n_switch += 1;
                         let bg = pre.background_count + inc;
@@ -255,6 +278,46 @@ fn run_cfg(report: &mut Report, c: &Cfg, verbose: bool) {
                     }
                 }
             }
+            if verbose {
+                eprintln!("  d {d}: took {took:?} index {index} div {diverging} pre ({},{}) post ({},{}) x {:?} g {:?}", pre.foreground_count, pre.background_count, post.foreground_count, post.background_count, out.vec("unconstrained_draw"), out.vec("gradient"));
+            }
+            // the counts alone may admit two explanations (a counted draw followed by a switch looks like an uncounted
+            // draw when the background was empty): then the contents of the windows are not known any more
+            if track_ok {
+                let mut n_expl = 0;
+                for &inc in counts {
+                    if post.foreground_count == pre.foreground_count + inc && post.background_count == pre.background_count + inc {
+                        n_expl += 1;
+                    }
+                    if post.background_count == 0 && post.foreground_count == pre.background_count + inc {
+                        n_expl += 1;
+                    }
+                }
+                if n_expl > 1 {
+                    track_ok = false;
+                    report.count("window_contents_ambiguous", 1);
+                }
+            }
+            if let (true, Some((inc, switched))) = (track_ok, took) {
+                if inc == 1 {
+                    // the state offered to the estimators is the returned draw (NUTS, also for divergent draws); for a
+                    // divergent MCLMC draw it is the last state of the failed trajectory, which is not observable
+                    let sample = match (out.vec("unconstrained_draw"), out.vec("gradient")) {
+                        (Some(x), Some(g)) if !(diverging && !c.preset.is_nuts()) => Some((x.clone(), g.clone())),
+                        _ => None,
+                    };
+                    fgw.push(sample.clone());
+                    bgw.push(sample);
+                }
+                if switched {
+                    fgw = std::mem::take(&mut bgw);
+                }
+                if fgw.len() as u64 != post.foreground_count || bgw.len() as u64 != post.background_count {
+                    // the window model lost track (one of the tolerated ambiguities): stop recomputing values
+                    track_ok = false;
+                    report.inconclusive("window contents not tracked to the end");
+                }
+            }
             if !explained {
                 report.violation(
                     sig("estimator_counts"),
@@ -271,6 +334,96 @@ fn run_cfg(report: &mut Report, c: &Cfg, verbose: bool) {
         }
         // first transformation change re-runs the step size search
         let id_now = chain.scales().map(|s| s.id).unwrap_or(-1);
+        if track_ok && id_now != last_id && d < f_win && fgw.len() >= 3 && fgw.iter().all(|s| s.is_some()) {
+            // the estimate installed by this draw's adaptation is the one of the window in use: for every coordinate
+            // std^4 = var(draws) / var(gradients) over exactly these samples (older draws must not enter)
+            let sc = chain.scales().unwrap();
+            let n = fgw.len() as f64;
+            let dim = sc.stds.len();
+            let mut worst: f64 = 0.0;
+            for i in 0..dim {
+                let xs: Vec<f64> = fgw.iter().map(|s| s.as_ref().unwrap().0[i]).collect();
+                let gs: Vec<f64> = fgw.iter().map(|s| s.as_ref().unwrap().1[i]).collect();
+                // two admissible forms of "variance over the window": the centred sum of squares, and the running
+                // form the estimator uses (squared distance of every sample from the mean of its predecessors);
+                // both see these samples only
+                let (mx, mg) = (xs.iter().sum::<f64>() / n, gs.iter().sum::<f64>() / n);
+                let batch = |v: &[f64], m: f64| -> f64 { v.iter().map(|x| (x - m) * (x - m)).sum() };
+                let running = |v: &[f64]| -> f64 {
+                    let (mut mean, mut acc) = (v[0], 0.0);
+                    for (k, x) in v.iter().enumerate().skip(1) {
+                        let diff = x - mean;
+                        mean += diff / (k as f64 + 1.0);
+                        acc += diff * diff;
+                    }
+                    acc
+                };
+                let mut best = f64::INFINITY;
+                let mut valid = false;
+                let mut near_clamp = false;
+                if draw_only {
+                    // variance of the draws of the window (either normalisation, either form)
+                    for vx in [batch(&xs, mx), running(&xs)] {
+                        for norm_by in [n, n - 1.0] {
+                            let val = vx / norm_by;
+                            if val.is_finite() && val > 1e-19 && val < 1e19 {
+                                valid = true;
+                                let want = val.sqrt();
+                                best = best.min((sc.stds[i] - want).abs() / want);
+                            } else {
+                                near_clamp = true;
+                            }
+                        }
+                    }
+                }
+                for (vx, vg) in [(batch(&xs, mx), batch(&gs, mg)), (running(&xs), running(&gs))] {
+                    if draw_only {
+                        break;
+                    }
+                    let val = (vx / vg).sqrt();
+                    if !(val.is_finite() && val > 1e-19 && val < 1e19) {
+                        near_clamp = true;
+                    }
+                    if val.is_finite() && val > 1e-19 && val < 1e19 {
+                        valid = true;
+                        let want = val.sqrt();
+                        best = best.min((sc.stds[i] - want).abs() / want);
+                    }
+                }
+                if !valid || near_clamp {
+                    continue; // invalid or clamped estimate: the previous value stays / the clamp decides
+                }
+                worst = worst.max(best);
+            }
+            if verbose {
+                eprintln!("draw {d}: id {last_id} -> {id_now}, fg {} bg {}, worst {worst:e}, pre {:?} post {:?}", fgw.len(), bgw.len(), pre, post);
+            }
+            if !(worst <= 1e-6) {
+                if verbose {
+                    eprintln!("  stds {:?}\n  fg samples {:?}", sc.stds, fgw);
+                    use nuts_rs::verif::*;
+                    use crate::script::ScriptMath;
+                    let dimn = sc.stds.len();
+                    let mut math = ScriptMath::new(Logged::new(Target::iso(dimn, 0.0), false));
+                    let mut strat = <DiagAdaptStrategy<crate::chains::SM> as MassMatrixAdaptStrategy<crate::chains::SM>>::new(&mut math, nuts_rs::DiagAdaptExpSettings::default(), 100, 0);
+                    let mut mm = diag_new(&mut math, false);
+                    let mut coll = new_draw_grad_collector(&mut math);
+                    for smp in fgw.iter().flatten() {
+                        set_draw_grad_collector(&mut math, &mut coll, &smp.0, &smp.1, true);
+                        strat.update_estimators(&mut math, &coll);
+                    }
+                    strat.adapt(&mut math, &mut mm);
+                    eprintln!("  estimator on these samples: {:?}", diag_parts(&mut math, &mm).stds);
+                }
+                report.violation(
+                    sig("estimate_is_not_the_one_of_the_window_in_use"),
+                    format!("draw {d}: installed scales differ from the estimate over the {} samples of the window in use by a relative {worst:e} (background holds {})", fgw.len(), bgw.len()),
+                    replay.clone(),
+                );
+                return;
+            }
+            report.count("window_estimates_recomputed", 1);
+        }
         let first_change = !seen_change && id_now != last_id;
         if id_now != last_id {
             seen_change = true;
